@@ -1,7 +1,7 @@
 """Contracts of the five tempo-map-consuming constructors outside sync.py (star power, track
 event, text/section/lyric) — same template as TimeSignatureEvent.from_parsed_data."""
 from pyvc.contract import Contract
-from pyvc.values import OptS
+from pyvc.values import OptS, STR
 from .c_sync import _cls
 
 KINDS = {
@@ -27,3 +27,16 @@ def register(reg, S):
             params=dict(cls=_cls(clsp), data=S[dname], prev_event=OptS(S[ename]), bpm_events=S["BPMEvents"]),
             result=S[ename], requires=t["be_pre"], raises=t["raises"], ensures=t["post"] + payload,
             props=["C01", "C11", "C12"]))
+
+    # line decoders of the three global event kinds (one inherited function, three classes)
+    for kind in ("Text", "Section", "Lyric"):
+        K = f"chartparse.globalevents:{kind}Event.ParsedData"
+        reg.add(Contract(
+            "chartparse.globalevents:GlobalEvent.ParsedData.from_chart_line", inst=f"{kind}Event",
+            params=dict(cls=_cls(K), line=STR), result=S[f"{kind}Data"],
+            raises={"RegexNotMatchError": f"not rxm('{K}', line)"},
+            ensures=[("tick", f"result.tick == pyint(rxg('{K}', 1, line))"),
+                     ("value-verbatim", f"result.value == rxg('{K}', 2, line)")],
+            props=["C09", "C14", "C18"]))
+        pat = _cls(K).get()._regex_prog.pattern
+        reg.rx_facts.setdefault(pat, []).extend([(1, "digits")])
